@@ -38,6 +38,20 @@ CHECKS['C01'] = ('DESIGN.md#C01',
     '(compiled .c is what runs). Known finding F24 (corner on ellipse) is '
     'excluded by signature and counted.')
 
+CHECKS['C02'] = ('DESIGN.md#C02',
+    'Hypothesis-generated images/masks/errors/apertures/positions vs. an '
+    'independent on-grid weight-image oracle, plus metamorphic relations '
+    '(many-vs-one, list-of-apertures, linearity, garbage under mask/zero '
+    'weight, Quantity/NDData forms, sky-vs-to_pixel)',
+    'Generated-input search: for every position the sum, error and overlap '
+    'area are recomputed from a weight image built directly on the image '
+    'grid by the C01 geometric oracle (no boxes/slices), NaN is required '
+    'exactly when the independently computed minimal box misses the image, '
+    'and bit-exact metamorphic relations are checked between call forms. '
+    'Held on N cases; not a proof.',
+    'Trusted: numpy summation (rel 1e-10), astropy.wcs for the sky/pixel '
+    'transformation. Images <= 40x40, apertures <= 12 px.')
+
 NOT_APPLICABLE = []
 
 
